@@ -89,6 +89,13 @@ def run_set_onto(ctx, case):
     for t in itertools.product(*[range(x) for x in base]):
         imgs.add(spf2.from_int_tuple(t).tobytes())
     ctx.require(len(imgs) == ref.sp_order(n), 'images distinct and as many as the group order', f'{len(imgs)} vs {ref.sp_order(n)}')
+    # a caller that keeps the matrices (a list of the whole group): results handed out earlier are not overwritten by later calls
+    tuples = list(itertools.product(*[range(x) for x in base]))
+    kept = [spf2.from_int_tuple(t) for t in tuples]
+    ctx.require(len({m.tobytes() for m in kept}) == ref.sp_order(n), 'the list [from_int_tuple(t) for t in all tuples] holds the whole group (no shared buffer)', f'{len({m.tobytes() for m in kept})} distinct')
+    ctx.require(all(tuple(int(x) for x in spf2.to_int_tuple(m)) == tuple(t) for m, t in zip(kept[::7], tuples[::7])), 'kept matrices still map back to their tuples')
+    kept_inv = [spf2.inverse(m) for m in kept[:50]]
+    ctx.require(all(np.array_equal((a.astype(np.int64) @ b.astype(np.int64)) % 2, np.eye(2 * n, dtype=np.int64)) for a, b in zip(kept[:50], kept_inv)), 'kept inverses stay inverses')
     # a caller that works on the returned matrices in place (here: multiplies each by a fixed group element) and enumerates again
     g = spf2.from_int_tuple(tuple(x - 1 for x in base)).astype(np.int64)
     for t in itertools.product(*[range(x) for x in base]):
@@ -151,6 +158,14 @@ def run_transvection(ctx, case):
             outc = spf2.transvection(allv.copy(), *[c.copy() for c in ch])
             ctx.require(np.array_equal(np.asarray(outc) % 2, Xc), 'a list of transvections in one call = the transvections applied one after the other', f'chain={[c.tolist() for c in ch]}')
         ctx.require(np.array_equal(spf2.transvection(v0.copy(), *hh_all) % 2, v2), 'chained find_transvection results map v0 -> v1 -> v2 in one call')
+        # a single transvection on a batch (the list form with one element)
+        for hh in np.asarray(h):
+            hh64 = hh.astype(np.int64)
+            X1 = allv.astype(np.int64)
+            X1 = (X1 + ((X1[:, :n] @ hh64[n:] + X1[:, n:] @ hh64[:n]) % 2)[:, None] * hh64) % 2
+            for shp in ((4 ** n, 2 * n), (2 ** n, 2 ** n, 2 * n)):
+                o1 = spf2.transvection(allv.reshape(shp).copy(), hh.copy())
+                ctx.require(np.shape(o1) == shp and np.array_equal(np.asarray(o1).reshape(-1, 2 * n) % 2, X1), 'one transvection on a batch of vectors = row by row', f'shape={shp} h={hh.tolist()}')
         for shp in ((4 ** n, 2 * n), (2 ** n, 2 ** n, 2 * n), (1, 4 ** n, 2 * n), (2, 2 ** n, 2 ** (n - 1), 2 * n)):
             arg = allv.reshape(shp).copy()
             outb = spf2.transvection(arg, *h)
